@@ -43,7 +43,31 @@ var negGeoms = []geomChoice{
 	{[3]int{0, -1, 0}, [3]int{2, 2, 2}},
 }
 
-func sequence(c *drv.Ctx, w *drv.Worker, seed int64, idx int, conf string, nops int, negative bool) error {
+// workerRef lets a sequence restart the server it runs on (the in-memory label mapping is rebuilt from the mutation
+// logs by a start-up, through the master leaf: every ancestor then gets its mapping through a descendant).
+type workerRef struct {
+	w        *drv.Worker
+	bin, dir string
+}
+
+func (ref *workerRef) restart(clean bool) error {
+	if clean {
+		if err := ref.w.Exit("clean"); err != nil {
+			return fmt.Errorf("clean exit: %v", err)
+		}
+	} else {
+		ref.w.Kill()
+	}
+	w, err := drv.StartWorker(ref.bin, ref.dir, drv.StartOpts{})
+	if err != nil {
+		return fmt.Errorf("restart: %v", err)
+	}
+	ref.w = w
+	return nil
+}
+
+func sequence(c *drv.Ctx, ref *workerRef, seed int64, idx int, conf string, nops int, negative bool) error {
+	w := ref.w
 	r := rand.New(rand.NewSource(seed))
 	tag := fmt.Sprintf("s%d", idx)
 	if negative {
@@ -115,6 +139,21 @@ func sequence(c *drv.Ctx, w *drv.Worker, seed int64, idx int, conf string, nops 
 				continue
 			}
 			in.adopt(child, v)
+			if r.Intn(3) == 0 && len(h.D.Order) < 6 {
+				// an intermediate version that is committed without ever being read or written: whatever the server
+				// keeps per version for it is first built when a descendant (or the final sweep) asks
+				if err := h.CommitNode(child); err == nil {
+					if gc, err := h.NewVersionOf(child); err == nil {
+						in.log("untouched intermediate %s, child %s", in.short(child), in.short(gc))
+						in.adopt(gc, child)
+						c.Count("untouched_intermediate_versions", 1)
+					} else if dvc.IsWorkerErr(err) {
+						return err
+					}
+				} else if dvc.IsWorkerErr(err) {
+					return err
+				}
+			}
 			// sometimes a sibling on another branch from the same (or an older) committed node
 			if r.Intn(3) == 0 && len(h.D.Order) < 6 {
 				comm := h.D.Committed()
@@ -151,9 +190,25 @@ func sequence(c *drv.Ctx, w *drv.Worker, seed int64, idx int, conf string, nops 
 			break
 		}
 	}
-	// final sweep: every version of the DAG, full surface
+	// final sweep: every version of the DAG, full surface; for every second sequence after a restart of the server
+	// (clean or SIGKILL while idle), and then leaves first, so that ancestors are first looked at after their descendants
 	in.step = nops + 1
-	for _, v := range h.D.Order {
+	order := append([]string{}, h.D.Order...)
+	if !negative && idx%2 == 1 {
+		if err := in.settle(); err != nil {
+			return err
+		}
+		if err := ref.restart(r.Intn(2) == 0); err != nil {
+			return err
+		}
+		in.w, in.cl.W = ref.w, ref.w
+		c.Count("restarts_before_final_sweep", 1)
+		in.log("restart")
+		for i, j := 0, len(order)-1; i < j; i, j = i+1, j-1 {
+			order[i], order[j] = order[j], order[i]
+		}
+	}
+	for _, v := range order {
 		if err := in.surface(v, "final", true, nil); err != nil {
 			return err
 		}
@@ -341,10 +396,11 @@ func run(c *drv.Ctx) error {
 				errs <- err
 				return
 			}
-			defer w.Kill()
+			ref := &workerRef{w: w, bin: bin, dir: dir}
+			defer func() { ref.w.Kill() }()
 			for i := wi; i < nseq; i += nw { // static assignment keeps (sequence, configuration) deterministic
-				if err := sequence(c, w, seeds[i], i, conf, nops, false); err != nil {
-					errs <- fmt.Errorf("worker %d sequence %d: %v; stderr: %s", wi, i, err, drv.Trunc(drv.FatalInStderr(w.Stderr()), 600))
+				if err := sequence(c, ref, seeds[i], i, conf, nops, false); err != nil {
+					errs <- fmt.Errorf("worker %d sequence %d: %v; stderr: %s", wi, i, err, drv.Trunc(drv.FatalInStderr(ref.w.Stderr()), 600))
 					return
 				}
 			}
@@ -378,7 +434,7 @@ func run(c *drv.Ctx) error {
 					return
 				}
 			}
-			err = sequence(c, w, negSeeds[i], i, "cache=off", nops, true)
+			err = sequence(c, &workerRef{w: w, bin: bin, dir: dir}, negSeeds[i], i, "cache=off", nops, true)
 			if err != nil && w.Dead() {
 				fatal := drv.FatalInStderr(w.Stderr())
 				fn := "unknown"
